@@ -343,7 +343,19 @@ func c16OrdRun(c *fw.Ctx) {
 	// a monitor that joins the hub while events flow is a listener like the others: history first,
 	// then every later event once, in order, one call at a time (the scenario of C15's join clause)
 	c.Share(4, func() { exploreSched(c, c15JoinScenario(c)) })
-	specs := c16OrdSpecs()
+	// the fault scenarios are short (tens of schedules each): they go first, so that the shares of
+	// the long two-client scenarios are what they were
+	var specs, faults []c16OrdSpec
+	for _, sp := range c16OrdSpecs() {
+		if sp.FaultAt > 0 {
+			faults = append(faults, sp)
+		} else {
+			specs = append(specs, sp)
+		}
+	}
+	for i, sp := range faults {
+		c.Share(len(faults)+len(specs)-i, func() { exploreSched(c, c16OrdScenario(c, sp)) })
+	}
 	for i, sp := range specs {
 		c.Share(len(specs)-i, func() { exploreSched(c, c16OrdScenario(c, sp)) })
 	}
